@@ -26,6 +26,8 @@ Translated, statement by statement (names of locals are taken from the source, s
           read_reqs.append(ReadReq(path=.., buffer_consumer=ShardedTensorBufferConsumer(overlapping_regions=D[K'], entry=..), byte_range=..))
                                                                                         -> g_key_member, g_key_lookup, g_read_reqs
       the order  _get_global_shape ; _validate_shape ; plan                             -> g_prepare_read
+ subdivide_shard        the statements building one piece: sub_offsets[dim] += start, sub_sizes[dim] = length,
+                        torch.narrow(shard, dim, start, length), the appended triple                   -> g_sub_piece
  _get_global_shape      init `[c] * len(entry.shards[0].sizes)`, `if A > B: global_shape[dim] = C`   -> g_gs_init, g_gs_step
  _validate_shape        assignments and `if ..: logger.warning(..)` / raise                           -> g_validate_shape (true = returns)
  ShardedTensorEntry.get_tensor_shape   the two comprehensions, the all(..) test, the update           -> g_ts_init, g_ts_candidate, g_ts_accept, g_ts_step
@@ -35,8 +37,8 @@ Keys: a dictionary key is an expression over S.tensor.location (an integer id in
 location as a one-element list.
 
 Not translated (hand-modelled in model/Reshard.v, tied by the differential harness): torch.narrow / copy_ on views,
-_check_shard_metadata_pair_overlap (torch), deserialisation, the dispatch on type(obj_out), subdivide_shard's list
-updates (its arithmetic is translated by gen_chunk.py).
+_check_shard_metadata_pair_overlap (torch), deserialisation, the dispatch on type(obj_out), prepare_write around
+subdivide_shard (the arithmetic of subdivide_shard is translated by gen_chunk.py).
 """
 from __future__ import annotations
 
@@ -756,6 +758,77 @@ def gen_tensor_shape(cls: ast.ClassDef) -> str:
             "                                     (g_ts_init (bsz first) (boff first)))\n  end.\n")
 
 
+# --------------------------------------------------------------------------- subdivide_shard: the piece (list updates, narrow)
+def gen_sub_piece(cls: ast.ClassDef) -> str:
+    """the statements of the subdivision loop that build one piece out of start/length (whose arithmetic, like that of
+    slice_sz / chunk_length / n_chunks, is translated by gen_chunk.py)"""
+    where = "ShardedTensorIOPreparer.subdivide_shard"
+    fn = method(cls, "subdivide_shard", "staticmethod")
+    if params(fn, 0) != ["shard", "offsets", "sizes", "dim", "max_shard_sz_bytes"]:
+        raise TranslateError(where, f"parameters {params(fn, 0)}")
+    body = strip_doc(fn.body)
+    loops = [s for s in body if isinstance(s, ast.For)]
+    if len(loops) != 1 or not isinstance(body[-1], ast.Return) or body[-2] is not loops[0]:
+        raise TranslateError(where, "expected one loop followed by the return")
+    loop = loops[0]
+    if not (isinstance(loop.target, ast.Name) and src(loop.iter) == "range(n_chunks)" and not loop.orelse):
+        raise TranslateError(where, f"loop header {src(loop.target)} in {src(loop.iter)}")
+    acc = src(body[-1].value)
+    if f"{acc} = []" not in [src(s) for s in body]:
+        raise TranslateError(where, f"{acc} is not initialised to []")
+    ints = {"start", "length"}
+    seen_ints = set()
+    lists: set[str] = set()
+    views: set[str] = set()
+    lines = []
+    result = None
+    for st in loop.body:
+        if result is not None:
+            raise TranslateError(where, "statements after the append")
+        if isinstance(st, ast.Assign) and len(st.targets) == 1 and isinstance(st.targets[0], ast.Name) and st.targets[0].id in ints:
+            seen_ints.add(st.targets[0].id)              # arithmetic: gen_chunk.py
+            continue
+        zt = Z(where, ints, {f"{x}[dim]": f"(nth dim {cname(x)} 0)" for x in lists | {"offsets", "sizes"}})
+        if isinstance(st, ast.Assign) and len(st.targets) == 1 and isinstance(st.targets[0], ast.Name):
+            v = st.targets[0].id
+            if isinstance(st.value, ast.Call) and src(st.value.func) in ("copy.deepcopy", "copy.copy", "list") and len(st.value.args) == 1 \
+                    and not st.value.keywords and isinstance(st.value.args[0], ast.Name) and st.value.args[0].id in ({"offsets", "sizes"} | lists):
+                lines.append(f"  let {cname(v)} := {cname(st.value.args[0].id)} in")
+                lists.add(v)
+                continue
+            if isinstance(st.value, ast.Call) and src(st.value.func) == "torch.narrow":
+                a = call_args(st.value, ["input", "dim", "start", "length"], where)
+                if src(a["input"]) != "shard" or src(a["dim"]) != "dim":
+                    raise TranslateError(where, f"narrow of {src(a['input'])} along {src(a['dim'])}")
+                lines.append(f"  let {cname(v)} := ({zt.z(a['start'])}, {zt.z(a['length'])}) in")
+                views.add(v)
+                continue
+        if isinstance(st, (ast.Assign, ast.AugAssign)):
+            tg = st.targets[0] if isinstance(st, ast.Assign) and len(st.targets) == 1 else st.target if isinstance(st, ast.AugAssign) else None
+            if isinstance(tg, ast.Subscript) and isinstance(tg.value, ast.Name) and tg.value.id in lists and src(tg.slice) == "dim":
+                x = cname(tg.value.id)
+                if isinstance(st, ast.Assign):
+                    lines.append(f"  let {x} := upd {x} dim {zt.z(st.value)} in")
+                elif isinstance(st.op, (ast.Add, ast.Sub)):
+                    lines.append(f"  let {x} := upd {x} dim (nth dim {x} 0 {'+' if isinstance(st.op, ast.Add) else '-'} {zt.z(st.value)}) in")
+                else:
+                    raise TranslateError(where, f"unsupported update {src(st)}")
+                continue
+        if (isinstance(st, ast.Expr) and isinstance(st.value, ast.Call) and src(st.value.func) == f"{acc}.append" and len(st.value.args) == 1
+                and isinstance(st.value.args[0], ast.Tuple) and len(st.value.args[0].elts) == 3 and all(isinstance(x, ast.Name) for x in st.value.args[0].elts)):
+            a, b, c = (x.id for x in st.value.args[0].elts)
+            if a not in views or b not in lists or c not in lists:
+                raise TranslateError(where, f"appended tuple {src(st.value.args[0])} is not (view, offsets list, sizes list)")
+            result = f"  ({cname(a)}, ({cname(b)}, {cname(c)}))"
+            continue
+        raise TranslateError(where, f"unsupported statement in the loop: {src(st)[:100]}")
+    if result is None or seen_ints != ints:
+        raise TranslateError(where, "start / length / the append not found in the loop")
+    return ("(* subdivide_shard: one piece = (narrow start, narrow length), (sub_offsets, sub_sizes) *)\n"
+            "Definition g_sub_piece (offsets sizes : list Z) (dim : nat) (start length_ : Z) : (Z * Z) * (list Z * list Z) :=\n"
+            + "\n".join(lines) + "\n" + result + ".\n")
+
+
 def generate() -> dict[str, str]:
     st = parse("torchsnapshot/io_preparers/sharded_tensor.py")
     mf = parse("torchsnapshot/manifest.py")
@@ -769,5 +842,6 @@ def generate() -> dict[str, str]:
     text = ("(* GENERATED by translator/gen_reshard.py from torchsnapshot/io_preparers/sharded_tensor.py and manifest.py - do not edit. *)\n"
             "From TS Require Import model.Base model.Reshard.\n\n"
             + region + "\n" + views + "\n" + consume + "\n" + gen_global_shape(cls) + "\n" + gen_validate(cls) + "\n"
-            + gen_prepare_read(cls, region_params) + "\n" + gen_tensor_shape(find_class(mf, "ShardedTensorEntry")))
+            + gen_prepare_read(cls, region_params) + "\n" + gen_tensor_shape(find_class(mf, "ShardedTensorEntry")) + "\n"
+            + gen_sub_piece(cls))
     return {"ReshardGen": text}
